@@ -29,6 +29,7 @@ from kernel.proofterm import ProofTerm
 from logic import basic
 
 INT31 = 2 ** 31 - 1
+Z3_TIMEOUT_MS = 1500
 
 
 # ------------------------------------------------------------------------------------------------
@@ -235,13 +236,24 @@ class Out:
         self.f.close()
 
 
-def call(fn):
+def call(fn, watchdog=False):
+    timer = None
+    if watchdog:
+        # harness safety only: interrupt Z3 when it does not answer (check() then returns unknown = "not solved")
+        import threading
+        import z3
+        timer = threading.Timer(Z3_TIMEOUT_MS / 1000.0 + 1.0, lambda: z3.main_ctx().interrupt())
+        timer.daemon = True
+        timer.start()
     try:
         r = fn()
     except AssertionError as e:
         return "no", "AssertionError: " + str(e)
     except Exception as e:  # noqa
         return "exc", "%s: %s" % (type(e).__name__, e)
+    finally:
+        if timer is not None:
+            timer.cancel()
     if r is True:
         return "yes", ""
     if r is False:
@@ -264,7 +276,7 @@ def run_z3(out, goal_t, prem_ts, src, routes=("solve",)):
     z3w = out.z3w
     if "solve" in routes:
         full = implies_term(prem_ts, goal_t)
-        acc, exc = call(lambda: z3w.solve(full))
+        acc, exc = call(lambda: z3w.solve(full), watchdog=True)
         out.emit("z3.solve", full, [], acc, exc, src)
     if "macro" in routes:
         macro = theory.global_macros["z3"]
@@ -273,14 +285,14 @@ def run_z3(out, goal_t, prem_ts, src, routes=("solve",)):
         def f():
             th = macro.eval(goal_t, prevs)
             return isinstance(th, Thm)
-        acc, exc = call(f)
+        acc, exc = call(f, watchdog=True)
         out.emit("z3.macro", goal_t, prem_ts, acc, exc, src)
     if "proof" in routes:
         def g():
             pt = ProofTerm("z3", args=goal_t, prevs=[ProofTerm.assume(p) for p in prem_ts])
             th = theory.check_proof(pt.export())
             return isinstance(th, Thm)
-        acc, exc = call(g)
+        acc, exc = call(g, watchdog=True)
         out.emit("z3.proof", goal_t, prem_ts, acc, exc, src)
 
 
@@ -317,6 +329,10 @@ def setup():
     from prover import z3wrapper, sympywrapper  # noqa: F401
     assert z3wrapper.z3_loaded, "z3 is not installed"
     assert z3wrapper.check_z3 is True, "z3wrapper.check_z3 is not True at start"
+    # harness safety only: a goal on which Z3 does not answer within the limit counts as "not solved"
+    # (check() returns unknown); the limit never produces the answer "unsat"
+    import z3
+    z3.set_param("timeout", Z3_TIMEOUT_MS)
     sys.stderr.write("c06: check_z3=%r z3_loaded=%r\n" % (z3wrapper.check_z3, z3wrapper.z3_loaded))
 
 
@@ -547,7 +563,7 @@ class Gen:
         if k < 0.5:
             return Op("minus", T, a, b)
         if k < 0.62:
-            return Op("times", T, a, b)
+            return Op("times", T, N(T, r.choice([0, 1, 2, 2, 3])), b)      # linear: Z3 may not terminate on quantified non-linear goals
         if k < 0.7:
             return Op(r.choice(["min", "max"]), T, a, b)
         if k < 0.76:
@@ -885,7 +901,7 @@ def mode_event(in_path, out_path):
         s = e["solver"]
         if s.startswith("z3."):
             if s == "z3.solve":
-                acc, exc = call(lambda: out.z3w.solve(implies_term(ps, g)))
+                acc, exc = call(lambda: out.z3w.solve(implies_term(ps, g)), watchdog=True)
                 out.emit(s, implies_term(ps, g), [], acc, exc, e.get("src", "replay"))
             else:
                 run_z3(out, g, ps, e.get("src", "replay"), routes=(s.split(".")[1],))
